@@ -127,7 +127,7 @@ structure HdrOk where
   nExt : Nat                    -- len(h.Extensions), whatever the X flag says (stale elements would show here)
   locs : List Int               -- offset of every extension value in the input (-1: empty value)
   ids  : List UInt8             -- GetExtensionIDs()
-  gets : List (Option Bytes)    -- GetExtension(id) for every listed id
+  gets : List (Option Bytes)    -- GetExtension(id) for every listed id (canonV)
   deriving DecidableEq, Repr
 
 /-- what is observed of a successfully decoded packet -/
@@ -151,6 +151,12 @@ structure Obs where
   reused : Recv                 -- receivers that decoded the earlier inputs before
   deriving DecidableEq, Repr
 
+/-- values as they are compared: Go's nil and an empty slice are identified (presence of an id is
+    what GetExtensionIDs says) -/
+def canonV : Option Bytes → Option Bytes
+  | some [] => none
+  | o => o
+
 /-- pointer offsets as the harness reports them: an empty slice has no meaningful address -/
 def canonLoc (len : Nat) (off : Nat) : Int := if len = 0 then -1 else (off : Int)
 
@@ -162,14 +168,14 @@ def mkHdrOk (x : Header × Nat × List Nat) : HdrOk :=
   let (h, n, locs) := x
   let ids := getExtensionIDs h
   { h := C01.canonH h, n := n, nExt := h.exts.length, locs := canonLocs h.exts locs, ids := ids,
-    gets := ids.map (getExtension h) }
+    gets := ids.map fun id => canonV (getExtension h id) }
 
 def mkPktOk (x : Packet × Nat × List Nat) : PktOk :=
   let (p, n, locs) := x
   let ids := getExtensionIDs p.header
   { p := C01.canonP p, nExt := p.header.exts.length, payOff := canonLoc p.payload.length n,
     locs := canonLocs p.header.exts locs,
-    ids := ids, gets := ids.map (getExtension p.header) }
+    ids := ids, gets := ids.map fun id => canonV (getExtension p.header id) }
 
 /-- the model's observation of one receiver pair (`rh` Header receiver, `rp` Packet receiver) -/
 def modelRecv (rh : Header) (rp : Packet) (buf : Bytes) : Recv :=
